@@ -480,6 +480,31 @@ theorem export_signals (h : List Op) :
   · rw [← lookup_run] at ho
     simp [step, ho]
 
+/-! ### 5. several handlers in one process -/
+
+/-- Several `DBusObjectHandler`s alive in one process (several connections; a connection and a bus), any
+interleaving of export / unexport calls on them: what handler `k` answers - its table at any text, hence
+every reply of `handleMsg`: UnknownObject, the introspected children, the managed objects - is what the
+calls made ON `k` imply, whatever was called on the others in between; so every theorem above about
+`run h` holds for each handler with `h` := the calls on that handler (`Multi.proj k h`). -/
+theorem handlers_independent (h : List (Nat × Op)) (k : Nat) :
+    Multi.run h k = run (Multi.proj k h) ∧
+    (∀ s, lookup (Multi.run h k) s = exportedAfter (Multi.proj k h) s) ∧
+    (∀ s iface member, handleMsg (Multi.run h k) s iface member = handleMsg (run (Multi.proj k h)) s iface member) := by
+  have e := multi_run_proj h k
+  exact ⟨e, fun s => by rw [e, lookup_run], fun s i m => by rw [e]⟩
+
+/-- One call on handler `k`: it does to `k`'s table, sends on `k`'s connection and raises exactly as the same
+call on a lone handler with that table; every other handler's table is unchanged and NOTHING is sent on any
+other handler's connection (the announcement of an export goes to the connection it was made on, only). -/
+theorem handler_call_is_local (T : Multi.Tables) (k : Nat) (op : Op) :
+    (Multi.step T k op).tables k = (step (T k) op).exports ∧
+    (Multi.step T k op).sentOn k = (step (T k) op).sent ∧
+    (Multi.step T k op).raised = (step (T k) op).raised ∧
+    ∀ j, j ≠ k → (Multi.step T k op).tables j = T j ∧ (Multi.step T k op).sentOn j = [] := by
+  refine ⟨by simp [Multi.step, Multi.set], by simp [Multi.step], rfl, fun j hj => ?_⟩
+  simp [Multi.step, Multi.set, hj]
+
 /-! ### text and elements -/
 
 /-- For valid object paths `s`, `t` (texts) with elements `p`, `q`: `t` is strictly below `s`
@@ -677,3 +702,5 @@ end Txdbus.C16
 #print axioms Txdbus.C16.parse_render_inverse
 #print axioms Txdbus.C16.orig_introspect_root_lists_empty_child
 #print axioms Txdbus.C16.orig_managed_reports_prefix_sibling
+#print axioms Txdbus.C16.handlers_independent
+#print axioms Txdbus.C16.handler_call_is_local
